@@ -46,6 +46,13 @@ def configs(tier, seed):
         for op in MUTATORS:
             for inplace in (False, True):
                 out.append(dict(h="mutate", op=op, key=f"mutate/{op}/A{na}/inplace={int(inplace)}", na=na, inplace=inplace))
+                if op == "insert":
+                    # every position a list accepts: front, inside, end, beyond either end, negative (counted from the end)
+                    for pos in sorted({0, na, na + 2, -1, -na, -na - 2, max(na - 1, 0)} - {min(1, na)}):
+                        out.append(dict(h="mutate", op=op, key=f"mutate/{op}/A{na}/inplace={int(inplace)}/pos={pos}", na=na, inplace=inplace, pos=pos))
+                if op in ("replace", "drop", "insert") and na >= 2:
+                    # several dimensions share one name (only letters are unique): everything addressed by letter still works
+                    out.append(dict(h="mutate", op=op, key=f"mutate/{op}/A{na}/inplace={int(inplace)}/same_names", na=na, inplace=inplace, same_names=True))
     hl = [2] if tier == "quick" else [2, 3]
     for L in hl:
         for na in ([2] if tier == "quick" else [2, 3]):
@@ -61,6 +68,7 @@ class Env:
     def __init__(self, w):
         self.w = w
         self.k = 0
+        self.same_names = False
 
     def dim(self, tag, n_items=None):
         """a fresh Dimension with a symbolic letter"""
@@ -68,7 +76,7 @@ class Env:
 
         self.k += 1
         n_items = n_items or (1 + self.k % 3)
-        d = Dimension(name=f"{tag}{self.k:02d}", letter="x", items=[f"{tag}{self.k}_{i}" for i in range(n_items)])
+        d = Dimension(name=(f"Same{tag}" if self.same_names else f"{tag}{self.k:02d}"), letter="x", items=[f"{tag}{self.k}_{i}" for i in range(n_items)])
         if self.w.sym:
             from svx.sym import SymLetter
 
@@ -125,7 +133,15 @@ def check_list(w, tag, ds, want, absent=()):
     w.ob(f"{tag}:letters_unique", valid(got))
     # lookup by name agrees with the list (and nothing else is a member): the set's lookup tables follow its list
     ok = True
+    unique_names = len({d.name for d in got}) == len(got)
     for d in got:
+        if not unique_names:
+            # shared names: the letter is the key
+            try:
+                ok = ok and ds[d.letter] is d and ds.index(d.letter) == [id(x) for x in got].index(id(d)) and ds.size(d.letter) == len(d.items)
+            except Exception:
+                ok = False
+            continue
         try:
             ok = ok and ds[d.name] is d and d.name in ds and ds.index(d.name) == got.index(d) and ds.size(d.name) == len(d.items)
         except Exception:
@@ -152,7 +168,9 @@ def run(cfg, w):
 
     env = Env(w)
     h = cfg["h"]
+    env.same_names = bool(cfg.get("same_names"))
     A, B = make_sets(cfg, w, env)
+    env.same_names = False
     if h == "ctor":
         try:
             sa = mk_set(A)
@@ -285,7 +303,7 @@ def run(cfg, w):
             new = env.dim("N")
             new2 = env.dim("M")
             tag = f"step{si}:{op}"
-            pos = min(1, len(model))
+            pos = cfg.get("pos", min(1, len(model)))
             target = model[len(model) // 2] if model else None
             must_raise = False
             either = False
@@ -299,7 +317,8 @@ def run(cfg, w):
                 must_raise = has_letter(model, new)
             elif op == "insert":
                 call = lambda: holder.insert(pos, new, inplace=inplace)
-                want = model[:pos] + [new] + model[pos:]
+                want = list(model)
+                want.insert(pos, new)  # the ordered-list model: Python's own list.insert
                 must_raise = has_letter(model, new)
             elif op == "expand_by":
                 if same_letter(new, new2):
@@ -312,7 +331,7 @@ def run(cfg, w):
                 if target is None:
                     w.ob(f"{tag}:nothing_to_replace", True)
                     return
-                key = target.name if si % 2 else target.letter
+                key = target.name if (si % 2 and not cfg.get("same_names")) else target.letter
                 call = lambda: holder.replace(key, new, inplace=inplace)
                 i = ids(model).index(id(target))
                 want = model[:i] + [new] + model[i + 1:]
@@ -327,7 +346,7 @@ def run(cfg, w):
                     except Exception:
                         w.ob(f"{tag}:unknown_key_rejected", True)
                     return
-                key = target.letter if si % 2 else target.name
+                key = target.letter if (si % 2 or cfg.get("same_names")) else target.name
                 call = lambda: holder.drop(key, inplace=inplace)
                 i = ids(model).index(id(target))
                 want = model[:i] + model[i + 1:]
